@@ -3,7 +3,7 @@
 Oracle: refcodec's own URI escaper / canonical-order comparator / wire encoder.
 """
 from . import gen, refcodec as rc
-from .common import raising_site
+from .common import raising_site, set_debug_logging, OddStr
 
 from ndn.encoding import Name, Component
 
@@ -116,6 +116,9 @@ def check_name(ctx, comps):
         'mixed': [rc.comp_to_canonical_uri(c) if rng.random() < 0.5 else (bytearray(c) if rng.random() < 0.5 else c)
                   for c in comps],
         'list-str': [rc.comp_to_canonical_uri(c) for c in comps],
+        # text given as instances of a str SUBCLASS whose str() is another text than its characters
+        'list-str-subclass': [OddStr(rc.comp_to_canonical_uri(c)) for c in comps],
+        'uri-str-subclass': OddStr(rc.name_to_uri(comps, canonical=True)),
     }
     if comps and all(canonical_number(c) for c in comps):
         forms['uri'] = rc.name_to_uri(comps)
@@ -460,7 +463,13 @@ def run(ctx):
                 v = rng.choice([rc.enc_nni(rng.choice([0, 5, 255, 256, 70000])), gen.comp_value(rng, 8), b''])
                 comps.insert(rng.randint(0, len(comps)), rc.comp(t, v))
             ctx.event('component-typed-next-to-the-number-conventions')
-        check_name(ctx, comps)
+        if i % 5 == 3:
+            set_debug_logging(True)
+            ctx.event('names-converted-while-the-application-logs-at-DEBUG')
+        try:
+            check_name(ctx, comps)
+        finally:
+            set_debug_logging(False)
         if i % 4 == 0:
             check_history(ctx, comps)
         if i % 6 == 1 and comps and len(rc.enc_name(comps)) < 2000:
@@ -501,7 +510,7 @@ def run(ctx):
         ctx.case(None, nontrivial=False, count=len(pool) ** 2)
         ctx.extra['all_pairs_pool'] = len(pool)
     for k in ('wire', 'canonical-uri', 'uri', 'normalize', 'is-prefix-true', 'is-prefix-false', 'name-order',
-              'component-order', 'history', 'history-mutable-result-edited', 'uri-of-typed-component-that-is-no-number', 'same-list-object-converted-again-after-an-in-place-edit', 'is-prefix-both-uris-other-spelling', 'is-prefix-with-a-tuple'):
+              'component-order', 'history', 'history-mutable-result-edited', 'uri-of-typed-component-that-is-no-number', 'same-list-object-converted-again-after-an-in-place-edit', 'is-prefix-both-uris-other-spelling', 'is-prefix-with-a-tuple', 'names-converted-while-the-application-logs-at-DEBUG'):
         ctx.need_event(k)
     ctx.assumptions = ['URI convention is the one python-ndn documents (no extra-period rule; = and % escaped)',
                        'shorthand URI round trip is demanded only for canonically encoded typed numbers']
